@@ -459,19 +459,26 @@ func cmdCheck(args []string) {
 		fmt.Fprintln(os.Stderr, "govc: note: clause filter selected nothing:", x)
 	}
 	fmt.Printf("%s %s: %d obligations, %d discharged, %d canaries (%d inconclusive), %d violations, %.1fs\n", id, tier, nObl, discharged, canaries["total"], canaries["inconclusive"], violations, wall)
+	// os.Exit skips deferred calls: remove the work directory first
+	exit := func(code int) {
+		if os.Getenv("GOVC_KEEP") == "" {
+			os.RemoveAll(work)
+		}
+		os.Exit(code)
+	}
 	if len(reports) == 0 {
 		fmt.Println("govc: no obligations generated — refusing to report success")
-		os.Exit(2)
+		exit(2)
 	}
 	if len(engineErrs) > 0 {
-		os.Exit(2)
+		exit(2)
 	}
 	if len(sensMissed) > 0 {
 		fmt.Printf("govc: self-test failed — stored property-breaking changes no longer detected: %s (the pass above is not trustworthy)\n", strings.Join(sensMissed, ", "))
-		os.Exit(2)
+		exit(2)
 	}
 	if violations > 0 {
-		os.Exit(1)
+		exit(1)
 	}
 }
 
